@@ -4,8 +4,8 @@ from harness._compute import sym_correspondence, symobj_replay
 from harness import symobj
 
 PROPERTY = "C14"
-LEAN_TARGETS = ["VectorModel.Props.C14"]
-THEOREM_FILES = ["VectorModel/Props/C14.lean"]
+LEAN_TARGETS = ["VectorModel.Props.C14", "VectorModel.Glue.Fields", "VectorModel.Props.C14Fields"]
+THEOREM_FILES = ["VectorModel/Props/C14.lean", "VectorModel/Props/C14Fields.lean"]
 NOT_COVERED = ["SymPy backend (mirror of the object backend; not separately driven)"]
 MOM = ["px", "py", "pt", "pt2", "pz", "pseudorapidity", "p", "p2", "E", "e", "energy", "E2", "e2", "energy2", "M", "m", "mass",
        "M2", "m2", "mass2", "Et", "et", "transverse_energy", "Et2", "et2", "transverse_energy2", "Mt", "mt", "transverse_mass",
@@ -45,6 +45,21 @@ def correspondence(ctx):
     out["stats"]["setter_steps"] = len(pairs)
     out["stats"].update(nstat)
     out["stats"]["traces_validated_against_impl"] += len(pairs) + nstat["array_synonym_checks"]
+    # the FIELD-LOOKUP model (Glue/Fields via Driver/Fields): which fields of an Awkward record are its coordinates - interpreter chains, numba
+    # typing and lowering - on every single-spelling record, shuffled orders, extras, doubled spellings, missing coordinates
+    from harness import fields as _fields
+    fp, fst = _fields.run(ctx)
+    fseen = set()
+    for k_, d_ in fp:
+        if k_ in fseen:
+            continue
+        fseen.add(k_)
+        out["disagreements"].append(f"fields: {k_}: {d_}"[:300])
+        out["failing_inputs"].append({"key": "fields:" + str(k_), "what": str(d_)[:400], "code": (
+            "import sys; sys.path.insert(0, %r); sys.path.insert(0, %r)\nfrom harness import fields\nclass X: seed=%d; tier=%r\n"
+            "problems, _ = fields.run(X)\nassert not problems, problems[0]\n" % (C.VERIF, C.VERIF + "/tools", ctx.seed, ctx.tier))})
+    out["stats"].update({"field_lookup_" + k_: (sorted(v_) if isinstance(v_, set) else v_) for k_, v_ in fst.items() if isinstance(v_, (int, float, str, set)) or v_ is None})
+    out["stats"]["traces_validated_against_impl"] += fst.get("requests", 0)
     out["ok"] = not out["disagreements"]
     return out
 
